@@ -127,7 +127,8 @@ theorem line2_expr_cases {Mb : Nat} {q q' : Query} {G : MG Name} {ctx : Ctx} (hq
       obtain ⟨n, hn, rfl⟩ := (mem_plainVars v _).1 hv
       exact jc.cover n (hRV n hn)
     rw [hexpr] at hret
-    rcases sumSafe_joint_sub (some pop) c _ (fun v hv => (hrng v hv).1) hsub with h1 | ⟨c', hs, _, _⟩
+    rcases sumSafe_joint_sub (some pop) c _ (fun v hv => (hrng v hv).1)
+      (names_nodup_of_plain_nodup jc.plain jc.nodup) hsub with h1 | ⟨c', hs, _, _, _⟩
     · exfalso
       obtain ⟨y, hy⟩ := List.exists_mem_of_ne_nil _ hq.Yne
       have hyV : y ∈ regularNodes G := mem_regularNodes.2 ⟨hq.YinG y hy, hq.YT y hy⟩
